@@ -476,6 +476,17 @@ def valuesFitB (es : List Entry) (fv : Reqs) : Bool :=
     | some x, some l => decide (x < 2 ^ l)
     | _, _ => true
 
+/-- **explicit positions are kept**: `post` is `pre` field by field, and every field that had a start position in
+`pre` has exactly that position in `post` (what `assign_fields` must do with explicitly positioned fields) -/
+def startsKeptB : List Entry → List Entry → Bool
+  | [], [] => true
+  | a :: as, b :: bs =>
+    (a.path == b.path && a.ident == b.ident &&
+      (match a.field.startAt with
+       | some s => b.field.startAt == some s
+       | none => true)) && startsKeptB as bs
+  | _, _ => false
+
 /-- width an entry will have after assignment -/
 def Entry.width (e : Entry) : Nat := e.field.chosenLen
 
@@ -587,6 +598,11 @@ def handle (op : String) (j : Json) : R Json := do
     let L ← nat j "length"
     let es ← (← arr j "entries").mapM entryOfJson
     pure (Json.mkObj [("fits", Json.bool (floatingFitsB L es)), ("nested", Json.bool (nestedB es))])
+  | "starts_kept" =>
+    -- the implementation's trees before and after one assign_fields
+    let pre ← (← arr j "pre").mapM entryOfJson
+    let post ← (← arr j "post").mapM entryOfJson
+    pure (Json.bool (startsKeptB pre post))
   | "consts" =>
     -- the constants regenerated from the source (hypotheses of `complete_floating` / `inv_addField`)
     pure (Json.mkObj [("scan_slack", jNat SCAN_SLACK), ("max_value_default", jNat MAX_VALUE_DEFAULT)])
